@@ -1,18 +1,26 @@
 (** valid_b reflects validity: every real instance on which the correspondence run evaluates valid_b to true is in the domain
     of the round-trip theorem (instantiated with the converter tables of that run). *)
-From OfxV Require Import Base.Prelude Model.Schema Model.SchemaWf Model.Convert Model.ConvertCases Model.ValidB
+From OfxV Require Import Base.Prelude Model.Schema Model.SchemaWf Model.Convert Model.ValidB
      Proofs.RoundTrip3 Proofs.RoundTrip5 Proofs.RoundTrip6.
 Local Open Scope string_scope.
 
-Lemma inst_eqb_eq : forall a b : hinst, inst_eqb a b = true -> a = b.
+Section VBS.
+  Variable sval : Type.
+  Variable sval_eqb : sval -> sval -> bool.
+  Hypothesis sval_eqb_eq : forall a b, sval_eqb a b = true -> a = b.
+  Variable conv : N -> sin sval -> result (option sval).
+  Variable unconv : N -> sval -> result text.
+  Variable S : schema.
+
+Lemma inst_eqb_eq : forall a b : inst sval, ginst_eqb sval sval_eqb a b = true -> a = b.
 Proof.
-  induction a as [ca fa ma IHf IHm] using (inst_ind' hval). intros [cb fb mb] H. cbn [inst_eqb] in H.
+  induction a as [ca fa ma IHf IHm] using (inst_ind' sval). intros [cb fb mb] H. cbn [ginst_eqb] in H.
   apply andb_true_iff in H. destruct H as [H Hm]. apply andb_true_iff in H. destruct H as [Hc Hf].
   apply String.eqb_eq in Hc. subst cb. f_equal.
   - clear Hm IHm. revert fb Hf. induction fa as [|[k u] fa IHl]; intros [|[k' v] fb] Hf; try discriminate; [reflexivity|].
     apply andb_true_iff in Hf. destruct Hf as [Hf Hr]. apply andb_true_iff in Hf. destruct Hf as [Hk Hv]. apply String.eqb_eq in Hk. subst k'.
     f_equal.
-    + f_equal. destruct u as [|x|i], v as [|y|j]; try discriminate; [reflexivity|apply N.eqb_eq in Hv; subst; reflexivity|].
+    + f_equal. destruct u as [|x|i], v as [|y|j]; try discriminate; [reflexivity|apply sval_eqb_eq in Hv; subst; reflexivity|].
       f_equal. apply (IHf k i); [left; reflexivity|exact Hv].
     + apply IHl; [intros k0 j0 Hin; apply (IHf k0 j0); right; exact Hin|exact Hr].
   - clear Hf IHf. revert mb Hm. induction ma as [|u ma IHl]; intros [|v mb] Hm; try discriminate; [reflexivity|].
@@ -20,43 +28,36 @@ Proof.
     + destruct u as [i|s|x], v as [j|t|y]; try discriminate.
       * f_equal. apply (IHm i); [left; reflexivity|exact Hv].
       * f_equal. apply text_eqb_eq. exact Hv.
-      * f_equal. destruct x, y; try discriminate; [apply N.eqb_eq in Hv; subst; reflexivity|reflexivity].
+      * f_equal. destruct x, y; try discriminate; [apply sval_eqb_eq in Hv; subst; reflexivity|reflexivity].
     + apply IHl; [intros j0 Hin; apply (IHm j0); right; exact Hin|exact Hr].
 Qed.
 
-Section VBS.
-  Variable tb : conv_table.
-  Variable utb : unconv_table.
-  Variable S : schema.
-  Notation conv := (tconv tb).
-  Notation unconv := (tunconv utb).
-
-  Lemma scalar_ok_spec t x : scalar_ok tb utb t x = true -> exists s, unconv t x = OK s /\ s <> [] /\ conv t (SText hval s) = OK (Some x).
+  Lemma scalar_ok_spec t x : scalar_ok sval sval_eqb conv unconv t x = true -> exists s, unconv t x = OK s /\ s <> [] /\ conv t (SText sval s) = OK (Some x).
   Proof.
     unfold scalar_ok. destruct (unconv t x) as [s|e]; [|discriminate]. intro H. apply andb_true_iff in H. destruct H as [Hn Hc].
     exists s. split; [reflexivity|]. split; [intros ->; discriminate|].
-    destruct (conv t (SText hval s)) as [[y|]|e]; try discriminate. apply N.eqb_eq in Hc. subst y. reflexivity.
+    destruct (conv t (SText sval s)) as [[y|]|e]; try discriminate. apply sval_eqb_eq in Hc. subst y. reflexivity.
   Qed.
 
   Lemma strs_eqb_eq (a b : list string) : strs_eqb a b = true -> a = b.
   Proof. apply (list_eqb_eq String.eqb). intros x y. apply String.eqb_eq. Qed.
 
-  Theorem valid_b_sound_l : forall i, valid_b tb utb S i = true -> valid hval conv unconv S i.
+  Theorem valid_b_sound_l : forall i, valid_b sval sval_eqb conv unconv S i = true -> valid sval conv unconv S i.
   Proof.
-    induction i as [cn fs ms IHf IHm] using (inst_ind' hval). intro H. cbn [valid_b] in H.
+    induction i as [cn fs ms IHf IHm] using (inst_ind' sval). intro H. cbn [valid_b] in H.
     destruct (find_cls S cn) as [c|] eqn:Hcls; [|discriminate].
     apply andb_true_iff in H; destruct H as [H Hcan]. apply andb_true_iff in H; destruct H as [H Hsp].
     apply andb_true_iff in H; destruct H as [H Hms]. apply andb_true_iff in H; destruct H as [H Hfs].
     apply andb_true_iff in H; destruct H as [Hcl Hnm].
-    apply (Valid hval conv unconv S cn c (class_lb c) (class_ub c) fs ms Hcls (rt_class_okb_sound_l c Hcl) (strs_eqb_eq _ _ Hnm)).
-    - clear -Hfs. induction fs as [|[k0 v0] fs IHl]; intros k x Hin; [contradiction|].
+    apply (Valid sval conv unconv S cn c (class_lb c) (class_ub c) fs ms Hcls (rt_class_okb_sound_l c Hcl) (strs_eqb_eq _ _ Hnm)).
+    - clear -Hfs sval_eqb_eq. induction fs as [|[k0 v0] fs IHl]; intros k x Hin; [contradiction|].
       destruct v0 as [|x0|j0].
       + destruct Hin as [E|Hin]; [discriminate|apply (IHl Hfs k x Hin)].
       + apply andb_true_iff in Hfs. destruct Hfs as [H1 H2]. destruct Hin as [E|Hin]; [|apply (IHl H2 k x Hin)].
         injection E as -> ->. destruct (assoc k (ci_spec c)) as [[ty req| | | |]|]; try discriminate.
         destruct (scalar_ok_spec _ _ H1) as (s & Hs). exists ty, req, s. split; [reflexivity|exact Hs].
       + repeat (apply andb_true_iff in Hfs; destruct Hfs as [Hfs ?]). destruct Hin as [E|Hin]; [discriminate|apply (IHl H k x Hin)].
-    - clear -Hfs. induction fs as [|[k0 v0] fs IHl]; intros k j Hin; [contradiction|].
+    - clear -Hfs sval_eqb_eq. induction fs as [|[k0 v0] fs IHl]; intros k j Hin; [contradiction|].
       destruct v0 as [|x0|j0].
       + destruct Hin as [E|Hin]; [discriminate|apply (IHl Hfs k j Hin)].
       + apply andb_true_iff in Hfs. destruct Hfs as [H1 H2]. destruct Hin as [E|Hin]; [discriminate|apply (IHl H2 k j Hin)].
@@ -69,7 +70,7 @@ Section VBS.
       + apply andb_true_iff in Hfs. destruct Hfs as [H1 H2]. destruct Hin as [E|Hin]; [discriminate|apply (IHl H2 Hin)].
       + repeat (apply andb_true_iff in Hfs; destruct Hfs as [Hfs ?]). destruct Hin as [E|Hin]; [|apply (IHl H Hin)].
         injection E as -> ->. assumption.
-    - clear -Hms. induction ms as [|m0 ms IHl]; intros j Hin; [contradiction|].
+    - clear -Hms sval_eqb_eq. induction ms as [|m0 ms IHl]; intros j Hin; [contradiction|].
       destruct m0 as [j0|s0|[x0|]]; try discriminate.
       + repeat (apply andb_true_iff in Hms; destruct Hms as [Hms ?]). destruct Hin as [E|Hin]; [|apply (IHl H j Hin)].
         injection E as ->. split; [apply negb_true_iff; assumption|]. split; [assumption|apply negb_true_iff; assumption].
@@ -79,18 +80,18 @@ Section VBS.
       + repeat (apply andb_true_iff in Hms; destruct Hms as [Hms ?]). destruct Hin as [E|Hin]; [|apply (IHl H Hin)].
         injection E as ->. assumption.
       + repeat (apply andb_true_iff in Hms; destruct Hms as [Hms ?]). destruct Hin as [E|Hin]; [discriminate|apply (IHl H Hin)].
-    - clear -Hms. induction ms as [|m0 ms IHl]; intros v Hin; [contradiction|].
+    - clear -Hms sval_eqb_eq. induction ms as [|m0 ms IHl]; intros v Hin; [contradiction|].
       destruct m0 as [j0|s0|[x0|]]; try discriminate.
       + repeat (apply andb_true_iff in Hms; destruct Hms as [Hms ?]). destruct Hin as [E|Hin]; [discriminate|apply (IHl H v Hin)].
       + repeat (apply andb_true_iff in Hms; destruct Hms as [Hms ?]). destruct Hin as [E|Hin]; [|apply (IHl H v Hin)].
         injection E as <-. split; [assumption|]. destruct (the_listelem c) as [[k ty]|]; [|discriminate].
         destruct (scalar_ok_spec _ _ H0) as (s & Hs). exists x0, k, ty, s. split; [reflexivity|]. split; [reflexivity|exact Hs].
-    - clear -Hms. induction ms as [|m0 ms IHl]; intros s Hin; [contradiction|].
+    - clear -Hms sval_eqb_eq. induction ms as [|m0 ms IHl]; intros s Hin; [contradiction|].
       destruct m0 as [j0|s0|[x0|]]; try discriminate.
       + repeat (apply andb_true_iff in Hms; destruct Hms as [Hms ?]). destruct Hin as [E|Hin]; [discriminate|apply (IHl H s Hin)].
       + repeat (apply andb_true_iff in Hms; destruct Hms as [Hms ?]). destruct Hin as [E|Hin]; [discriminate|apply (IHl H s Hin)].
     - intro Hn. rewrite Hn in Hsp. destruct ms; [reflexivity|discriminate].
-    - destruct (construct hval conv S cn (canon_args hval unconv c ms) (canon_kw hval unconv c fs)) as [j|e]; [|discriminate].
+    - destruct (construct sval conv S cn (canon_args sval unconv c ms) (canon_kw sval unconv c fs)) as [j|e]; [|discriminate].
       apply inst_eqb_eq in Hcan. subst j. reflexivity.
   Qed.
 End VBS.
